@@ -247,7 +247,18 @@ def run(ctx):
         if rng.random() < 0.5:
             ctx.bucket("converter_object_reused")
             return reused[allow_post_selection].convert(qc)
-        return conv_fn(qc, allow_post_selection=allow_post_selection)
+        # the flag in the forms a caller may hand over: bool, numpy bool (the result of a comparison), 0 / 1
+        r_f = rng.random()
+        flag = allow_post_selection
+        if r_f < 0.25:
+            flag = np.bool_(flag)
+        elif r_f < 0.4:
+            flag = int(flag)
+        if r_f < 0.4:
+            ctx.bucket("allow_post_selection_given_as:" + type(flag).__name__)
+        if rng.random() < 0.3:
+            return QiskitConverter(flag).convert(qc)
+        return conv_fn(qc, flag) if rng.random() < 0.5 else conv_fn(qc, allow_post_selection=flag)
     it = 0
     while not ctx.out_of_time():
         it += 1
